@@ -10,6 +10,7 @@ import (
 	"sigs.k8s.io/cli-utils/pkg/object"
 	"sigs.k8s.io/cli-utils/pkg/object/dependson"
 	"sigs.k8s.io/cli-utils/pkg/object/graph"
+	"sigs.k8s.io/cli-utils/pkg/object/mutation"
 	"sigs.k8s.io/cli-utils/pkg/object/validation"
 	"verifharness/emit"
 )
@@ -19,6 +20,19 @@ const (
 	annBad
 	annDeps
 )
+
+// the apply-time-mutation annotation
+const (
+	mutAbsent = iota
+	mutBad    // present, yaml.Unmarshal into ApplyTimeMutation fails
+	mutSrcs   // present and parsed: one source reference per substitution (possibly none)
+)
+
+// msrc is the source reference of one substitution.
+type msrc struct {
+	id     int  // table index of SourceRef.ToObjMetadata()
+	viaAPI bool // written with apiVersion (GROUP/v1) instead of group
+}
 
 const (
 	specNone      = iota
@@ -36,6 +50,61 @@ type ospec struct {
 	deps   []int
 	spec   int
 	sg, sk string
+	mut    int
+	mbad   string // annotation text when mut == mutBad
+	srcs   []msrc // when mut == mutSrcs, in annotation order
+}
+
+// annotation texts that mutation.ReadAnnotation rejects: broken YAML, a scalar,
+// a mapping instead of a list, wrongly typed members
+var badMuts = []string{
+	"{{ not yaml",
+	"not-a-list",
+	"sourceRef: {kind: ConfigMap, name: a}",
+	"- sourceRef: 7",
+	"- [1, 2]",
+	"- sourceRef:\n    kind: [x]\n",
+	"- sourceRef: {kind: ConfigMap, name: a}\n  sourcePath: {a: b}\n",
+}
+
+// mutYAML writes the annotation by hand (every string double-quoted, so that
+// names like "y" or "n" stay strings): group or apiVersion form per reference,
+// namespace omitted when empty (ResourceReference.Namespace is omitempty).
+func mutYAML(tab *table, srcs []msrc) string {
+	if len(srcs) == 0 {
+		return "[]"
+	}
+	var b strings.Builder
+	for k, m := range srcs {
+		id := tab.ids[m.id]
+		fmt.Fprintf(&b, "- sourceRef:\n    kind: %q\n", id.GroupKind.Kind)
+		if m.viaAPI {
+			av := "v1"
+			if id.GroupKind.Group != "" {
+				av = id.GroupKind.Group + "/v1"
+			}
+			fmt.Fprintf(&b, "    apiVersion: %q\n", av)
+		} else if id.GroupKind.Group != "" {
+			fmt.Fprintf(&b, "    group: %q\n", id.GroupKind.Group)
+		}
+		fmt.Fprintf(&b, "    name: %q\n", id.Name)
+		if id.Namespace != "" {
+			fmt.Fprintf(&b, "    namespace: %q\n", id.Namespace)
+		}
+		fmt.Fprintf(&b, "  sourcePath: \"$.status.f%d\"\n  targetPath: \"$.spec.g%d\"\n", k, k%2)
+		if k%2 == 1 {
+			fmt.Fprintf(&b, "  token: \"${t%d}\"\n", k)
+		}
+	}
+	return b.String()
+}
+
+func (o ospec) srcIDs() []int {
+	l := make([]int, len(o.srcs))
+	for i, m := range o.srcs {
+		l[i] = m.id
+	}
+	return l
 }
 
 var badAnnots = []string{"not-a-reference", "", "a/b", "apps/namespace/ns1/Deployment/x", "/ConfigMap/a,", "a/b/c/d"}
@@ -43,6 +112,7 @@ var badAnnots = []string{"not-a-reference", "", "a/b", "apps/namespace/ns1/Deplo
 func (o ospec) clone() ospec {
 	c := o
 	c.deps = append([]int(nil), o.deps...)
+	c.srcs = append([]msrc(nil), o.srcs...)
 	return c
 }
 
@@ -56,9 +126,16 @@ func (o ospec) build(tab *table) *unstructured.Unstructured {
 	if id.Namespace != "" {
 		meta["namespace"] = id.Namespace
 	}
+	ann := map[string]interface{}{}
+	switch o.mut {
+	case mutBad:
+		ann[mutation.Annotation] = o.mbad
+	case mutSrcs:
+		ann[mutation.Annotation] = mutYAML(tab, o.srcs)
+	}
 	switch o.annot {
 	case annBad:
-		meta["annotations"] = map[string]interface{}{dependson.Annotation: o.bad}
+		ann[dependson.Annotation] = o.bad
 	case annDeps:
 		parts := make([]string, len(o.deps))
 		for i, d := range o.deps {
@@ -68,7 +145,10 @@ func (o ospec) build(tab *table) *unstructured.Unstructured {
 			}
 			parts[i] = s
 		}
-		meta["annotations"] = map[string]interface{}{dependson.Annotation: strings.Join(parts, ",")}
+		ann[dependson.Annotation] = strings.Join(parts, ",")
+	}
+	if len(ann) > 0 {
+		meta["annotations"] = ann
 	}
 	u := &unstructured.Unstructured{Object: map[string]interface{}{
 		"apiVersion": apiVersion,
@@ -98,11 +178,20 @@ func (o ospec) coq(tab *table) string {
 	default:
 		a = emit.App("Deps", emit.NatList(o.deps))
 	}
+	var m string
+	switch o.mut {
+	case mutAbsent:
+		m = "NoMut"
+	case mutBad:
+		m = "BadMut"
+	default:
+		m = emit.App("Muts", emit.NatList(o.srcIDs()))
+	}
 	crd := "None"
 	if isCRDGK(tab.ids[o.id].GroupKind) && o.spec == specFull {
 		crd = "(Some (" + emit.Str(o.sg) + ", " + emit.Str(o.sk) + "))"
 	}
-	return emit.App("mkObj", emit.Nat(o.id), a, crd)
+	return emit.App("mkObj", emit.Nat(o.id), a, m, crd)
 }
 
 func (o ospec) text(tab *table) string {
@@ -113,6 +202,19 @@ func (o ospec) text(tab *table) string {
 		extra = append(extra, fmt.Sprintf("bad-annot %q", o.bad))
 	case annDeps:
 		extra = append(extra, fmt.Sprintf("deps %v", o.deps))
+	}
+	switch o.mut {
+	case mutBad:
+		extra = append(extra, fmt.Sprintf("bad-mut %q", o.mbad))
+	case mutSrcs:
+		l := make([]string, len(o.srcs))
+		for i, m := range o.srcs {
+			l[i] = fmt.Sprintf("%d", m.id)
+			if m.viaAPI {
+				l[i] += "v" // reference written with apiVersion
+			}
+		}
+		extra = append(extra, "muts ["+strings.Join(l, " ")+"]")
 	}
 	switch o.spec {
 	case specFull:
@@ -164,6 +266,9 @@ type oobs struct {
 	bad      []int
 	isErr    bool
 	panicked bool
+	// graph.DependencyGraph on the same objects
+	edges [][2]int // Dependencies(id) of every table id, adjacency order kept
+	dgBad []int    // ids named by its error, in order
 }
 
 // setsToIdx maps returned objects to table indices and checks that every
@@ -218,7 +323,68 @@ func (h *harness) observeObjs(tab *table, objs []ospec) oobs {
 	o.panicked = guard(func() { sets, err = graph.SortObjs(us) })
 	o.sets = h.setsToIdx(tab, us, sets, "SortObjs")
 	h.splitErr(tab, err, &o)
+	h.checkMutRead(tab, objs, us)
+
+	// DependencyGraph itself: its edges and its own error
+	var g *graph.Graph
+	var gerr error
+	if guard(func() { g, gerr = graph.DependencyGraph(us) }) {
+		o.panicked = true
+	}
+	if g == nil {
+		h.fail("DependencyGraph returned a nil graph")
+		return o
+	}
+	for i, id := range tab.ids {
+		for _, to := range g.Dependencies(id) {
+			o.edges = append(o.edges, [2]int{i, tab.ix(to)})
+		}
+	}
+	if gerr != nil {
+		for _, e := range multierror.Unwrap(gerr) {
+			ve, ok := e.(*validation.Error)
+			if !ok {
+				h.fail(fmt.Sprintf("DependencyGraph returned an error element that is not *validation.Error: %T %v", e, e))
+				continue
+			}
+			o.dgBad = append(o.dgBad, tab.ixs(ve.Identifiers())...)
+		}
+	}
 	return o
+}
+
+// checkMutRead is a sanity check of the HARNESS: the hand-written annotation
+// text must be read by mutation.ReadAnnotation as the generator meant it
+// (rejected / the intended source ids in order), because the case handed to
+// Coq describes the annotation "as DependencyGraph reads it".
+func (h *harness) checkMutRead(tab *table, objs []ospec, us object.UnstructuredSet) {
+	for i, o := range objs {
+		if mutation.HasAnnotation(us[i]) != (o.mut != mutAbsent) {
+			h.fail("harness: HasAnnotation disagrees with the generated object " + o.text(tab))
+			continue
+		}
+		if o.mut == mutAbsent {
+			continue
+		}
+		subs, err := mutation.ReadAnnotation(us[i])
+		if o.mut == mutBad {
+			if err == nil {
+				h.fail(fmt.Sprintf("harness: mutation annotation meant to be rejected is accepted: %q", o.mbad))
+			}
+			continue
+		}
+		if err != nil {
+			h.fail(fmt.Sprintf("harness: generated mutation annotation is rejected: %v: %q", err, mutYAML(tab, o.srcs)))
+			continue
+		}
+		ok := len(subs) == len(o.srcs)
+		for k := 0; ok && k < len(subs); k++ {
+			ok = subs[k].SourceRef.ToObjMetadata() == tab.ids[o.srcs[k].id]
+		}
+		if !ok {
+			h.fail(fmt.Sprintf("harness: generated mutation annotation is read differently: %q => %v", mutYAML(tab, o.srcs), subs))
+		}
+	}
 }
 
 func (o oobs) cycTerm() string {
@@ -236,6 +402,7 @@ func (o oobs) text() string {
 	if len(o.bad) > 0 {
 		s += fmt.Sprintf(" bad=%v", o.bad)
 	}
+	s += fmt.Sprintf(" dg{edges=%s bad=%v}", edgesText(o.edges), o.dgBad)
 	if o.panicked {
 		s += " PANIC"
 	}
@@ -262,13 +429,14 @@ func (h *harness) emitObjCaseCost(sk *sink, tab *table, label, prefix, detail st
 	nontriv := false
 	for i, objs := range ins {
 		o := h.observeObjs(tab, objs)
-		runs[i] = emit.App("mkORun", objsTerm(tab, objs), natLists(o.sets), o.cycTerm(), emit.NatList(o.bad), emit.Bool(o.panicked))
+		runs[i] = emit.App("mkORun", objsTerm(tab, objs), natLists(o.sets), o.cycTerm(), emit.NatList(o.bad),
+			pairList(o.edges), emit.NatList(o.dgBad), emit.Bool(o.panicked))
 		txt = append(txt, fmt.Sprintf("run objs=%s => %s", objsText(tab, objs), o.text()))
 		if i == 0 {
 			if big {
 				ne := len(objs) // implicit edges, roughly
 				for _, x := range objs {
-					ne += len(x.deps)
+					ne += len(x.deps) + len(x.srcs)
 				}
 				// measured: object sets are sparser than the estimate suggests
 				cost = len(ins) * (1 + bigCost(len(objs), ne, len(o.sets), len(o.cycIDs))/2)
@@ -284,10 +452,11 @@ func (h *harness) emitObjCaseCost(sk *sink, tab *table, label, prefix, detail st
 			h.sum.Count(fmt.Sprintf("objs:sets=%d", len(o.sets)))
 			h.objInputs = append(h.objInputs, objInput{tab, objs, label, o.isErr})
 			for _, x := range objs {
-				if x.annot != annAbsent {
+				if x.annot != annAbsent || x.mut != mutAbsent {
 					nontriv = true
 				}
 			}
+			h.countAnnots(objs)
 			if len(o.sets) > 1 {
 				nontriv = true
 			}
@@ -298,6 +467,81 @@ func (h *harness) emitObjCaseCost(sk *sink, tab *table, label, prefix, detail st
 	return sk.addCost([]*table{tab}, term, strings.Join(txt, " || "), len(ins), cost, nontriv)
 }
 
+// countAnnots records which annotation kinds the objects of one case (first
+// presentation) carry, per object.
+func (h *harness) countAnnots(objs []ospec) {
+	inSet := map[int]bool{}
+	for _, o := range objs {
+		inSet[o.id] = true
+	}
+	for _, o := range objs {
+		d := [...]string{"absent", "unparseable", "refs"}[o.annot]
+		m := [...]string{"absent", "unparseable", "sources"}[o.mut]
+		h.sum.Count("annot:depends-on=" + d + " mutation=" + m)
+		if o.mut == mutSrcs {
+			seen := map[int]bool{}
+			dup, ext, in, api := false, false, false, false
+			for _, s := range o.srcs {
+				if seen[s.id] {
+					dup = true
+				}
+				seen[s.id] = true
+				if inSet[s.id] {
+					in = true
+				} else {
+					ext = true
+				}
+				api = api || s.viaAPI
+			}
+			if len(o.srcs) == 0 {
+				h.sum.Count("annot:mutation empty-list")
+			}
+			if in {
+				h.sum.Count("annot:mutation in-set-source")
+			}
+			if dup {
+				h.sum.Count("annot:mutation duplicate-source")
+			}
+			if ext {
+				h.sum.Count("annot:mutation external-source")
+			}
+			if api {
+				h.sum.Count("annot:mutation apiVersion-form")
+			}
+			if seen[o.id] {
+				h.sum.Count("annot:mutation self-source")
+			}
+			if o.annot == annDeps {
+				for _, d := range o.deps {
+					if seen[d] {
+						h.sum.Count("annot:same-target-via-depends-on-and-mutation")
+						break
+					}
+				}
+			}
+		}
+		if o.annot == annDeps {
+			seen := map[int]bool{}
+			dup, ext := false, false
+			for _, d := range o.deps {
+				if seen[d] {
+					dup = true
+				}
+				seen[d] = true
+				if !inSet[d] {
+					ext = true
+				}
+			}
+			if dup {
+				h.sum.Count("annot:depends-on duplicate-ref")
+			}
+			if ext {
+				h.sum.Count("annot:depends-on external-ref")
+			}
+		}
+	}
+}
+
 // present lists the objects in the given order with every annotation's
 // references shuffled.
 func present(r *rand.Rand, objs []ospec, order []int) []ospec {
@@ -305,9 +549,50 @@ func present(r *rand.Rand, objs []ospec, order []int) []ospec {
 	for i, k := range order {
 		c := objs[k].clone()
 		r.Shuffle(len(c.deps), func(a, b int) { c.deps[a], c.deps[b] = c.deps[b], c.deps[a] })
+		r.Shuffle(len(c.srcs), func(a, b int) { c.srcs[a], c.srcs[b] = c.srcs[b], c.srcs[a] })
 		out[i] = c
 	}
 	return out
+}
+
+// how one edge of a digraph is written down
+const (
+	viaDep = iota
+	viaMut
+	viaBoth
+)
+
+// edgesToObjsVia encodes a digraph on vertices 0..n-1, edge k as a depends-on
+// reference, a mutation source, or both (via[k]).
+func edgesToObjsVia(r *rand.Rand, n int, es [][2]int, via []int) []ospec {
+	objs := make([]ospec, n)
+	for i := range objs {
+		objs[i] = ospec{id: i}
+	}
+	for k, e := range es {
+		o := &objs[e[0]]
+		if via[k] == viaDep || via[k] == viaBoth {
+			o.annot = annDeps
+			o.deps = append(o.deps, e[1])
+		}
+		if via[k] == viaMut || via[k] == viaBoth {
+			o.mut = mutSrcs
+			o.srcs = append(o.srcs, msrc{id: e[1], viaAPI: r.Intn(3) == 0})
+			// a repeated source is legal
+			if r.Intn(6) == 0 {
+				o.srcs = append(o.srcs, msrc{id: e[1], viaAPI: r.Intn(2) == 0})
+			}
+		}
+	}
+	return objs
+}
+
+func randVia(r *rand.Rand, n int) []int {
+	v := make([]int, n)
+	for i := range v {
+		v[i] = r.Intn(3)
+	}
+	return v
 }
 
 // edgesToObjs encodes a digraph on vertices 0..n-1 as depends-on annotations.
@@ -441,6 +726,33 @@ func genScenario(r *rand.Rand, name string, cyclic bool) scenario {
 		objs[oi].annot = annDeps
 		objs[oi].deps = append(objs[oi].deps, to)
 	}
+	// a reference to a source object of an apply-time mutation (repeats are
+	// only added by the dedicated step below)
+	addMut := func(oi, to int) {
+		for _, m := range objs[oi].srcs {
+			if m.id == to {
+				return
+			}
+		}
+		objs[oi].mut = mutSrcs
+		objs[oi].srcs = append(objs[oi].srcs, msrc{id: to, viaAPI: r.Intn(4) == 0})
+	}
+	// share of the explicit dependencies of this scenario that are written as
+	// mutation sources (0: a depends-on-only scenario as before)
+	pMut := []float64{0, 0.25, 0.5, 0.85}[r.Intn(4)]
+	addRef := func(oi, to int) {
+		if r.Float64() >= pMut {
+			addDep(oi, to)
+			return
+		}
+		addMut(oi, to)
+		tags["mut-source"] = true
+		if r.Intn(4) == 0 {
+			// the same dependency through both annotations
+			addDep(oi, to)
+			tags["dep-and-mut-same-target"] = true
+		}
+	}
 	lowerThan := func(rk int) []int {
 		var l []int
 		for _, o := range objs {
@@ -456,7 +768,7 @@ func genScenario(r *rand.Rand, name string, cyclic bool) scenario {
 			return
 		}
 		for k := 1 + r.Intn(3); k > 0; k-- {
-			addDep(oi, cands[r.Intn(len(cands))])
+			addRef(oi, cands[r.Intn(len(cands))])
 		}
 	}
 	// explicit dependencies along the ranking (never close a cycle, also not
@@ -467,6 +779,9 @@ func genScenario(r *rand.Rand, name string, cyclic bool) scenario {
 			rankedDeps(oi)
 			if objs[oi].annot == annDeps {
 				tags["explicit-dep"] = true
+			}
+			if objs[oi].annot == annDeps && objs[oi].mut == mutSrcs {
+				tags["dep-and-mut-same-object"] = true
 			}
 		}
 	}
@@ -479,17 +794,17 @@ func genScenario(r *rand.Rand, name string, cyclic bool) scenario {
 			switch what {
 			case 0: // self reference
 				oi := r.Intn(len(objs))
-				addDep(oi, objs[oi].id)
+				addRef(oi, objs[oi].id)
 				tags["self-dep"] = true
 			case 1: // 2-cycle
 				a, b := r.Intn(len(objs)), r.Intn(len(objs))
-				addDep(a, objs[b].id)
-				addDep(b, objs[a].id)
+				addRef(a, objs[b].id)
+				addRef(b, objs[a].id)
 			case 2: // ring
 				ln := 3 + r.Intn(3)
 				ring := r.Perm(len(objs))[:ln]
 				for i := range ring {
-					addDep(ring[i], objs[ring[(i+1)%ln]].id)
+					addRef(ring[i], objs[ring[(i+1)%ln]].id)
 				}
 			case 3, 4: // a Namespace depends on an object living in it
 				var cand []string
@@ -498,7 +813,7 @@ func genScenario(r *rand.Rand, name string, cyclic bool) scenario {
 				}
 				if len(cand) == 0 {
 					oi := r.Intn(len(objs))
-					addDep(oi, objs[oi].id)
+					addRef(oi, objs[oi].id)
 					break
 				}
 				sortStrings(cand)
@@ -506,12 +821,12 @@ func genScenario(r *rand.Rand, name string, cyclic bool) scenario {
 				inside := nsObjIn[ns]
 				for oi, o := range objs {
 					if ids[o.id] == mkID("", "Namespace", "", ns) {
-						addDep(oi, objs[inside[r.Intn(len(inside))]].id)
+						addRef(oi, objs[inside[r.Intn(len(inside))]].id)
 						tags["namespace-depends-on-member"] = true
 					}
 				}
 			case 5: // arbitrary extra edge
-				addDep(r.Intn(len(objs)), objs[r.Intn(len(objs))].id)
+				addRef(r.Intn(len(objs)), objs[r.Intn(len(objs))].id)
 			}
 		}
 	}
@@ -521,6 +836,29 @@ func genScenario(r *rand.Rand, name string, cyclic bool) scenario {
 			addDep(r.Intn(len(objs)), ext[r.Intn(len(ext))])
 		}
 		tags["external-dep"] = true
+	}
+	// mutation sources that are not part of the object set
+	if len(ext) > 0 && pMut > 0 && r.Intn(5) < 2 {
+		for k := 1 + r.Intn(2); k > 0; k-- {
+			addMut(r.Intn(len(objs)), ext[r.Intn(len(ext))])
+		}
+		tags["mut-external-source"] = true
+	}
+	// a source used by two substitutions of one annotation (legal)
+	if pMut > 0 && r.Intn(10) < 4 {
+		var with []int
+		for oi, o := range objs {
+			if len(o.srcs) > 0 {
+				with = append(with, oi)
+			}
+		}
+		if len(with) > 0 {
+			oi := with[r.Intn(len(with))]
+			m := objs[oi].srcs[r.Intn(len(objs[oi].srcs))]
+			m.viaAPI = !m.viaAPI
+			objs[oi].srcs = append(objs[oi].srcs, m)
+			tags["mut-duplicate-source"] = true
+		}
 	}
 	// a reference repeated within one annotation
 	if r.Intn(10) < 3 {
@@ -545,12 +883,28 @@ func genScenario(r *rand.Rand, name string, cyclic bool) scenario {
 		}
 		tags["bad-annot"] = true
 	}
+	// mutation annotations that do not parse / that parse to no substitution
+	if pMut > 0 && r.Intn(10) < 3 {
+		for k := 1 + r.Intn(2); k > 0; k-- {
+			oi := r.Intn(len(objs))
+			objs[oi].mut, objs[oi].srcs, objs[oi].mbad = mutBad, nil, badMuts[r.Intn(len(badMuts))]
+		}
+		tags["mut-bad-annot"] = true
+	}
+	if pMut > 0 && r.Intn(10) < 2 {
+		oi := r.Intn(len(objs))
+		if objs[oi].mut == mutAbsent {
+			objs[oi].mut = mutSrcs
+			tags["mut-empty-list"] = true
+		}
+	}
 	// the same id twice, with a different annotation
 	if r.Intn(10) < 3 {
 		for k := 1 + r.Intn(2); k > 0; k-- {
 			src := r.Intn(len(objs))
 			c := objs[src].clone()
 			c.annot, c.deps, c.bad = annAbsent, nil, ""
+			c.mut, c.srcs, c.mbad = mutAbsent, nil, ""
 			objs = append(objs, c)
 			if r.Intn(3) > 0 {
 				rankedDeps(len(objs) - 1)
@@ -631,6 +985,73 @@ func (h *harness) objCases(r *rand.Rand, mult int) error {
 		}
 	}
 
+	// ---- corpus for the apply-time-mutation pass
+	{
+		tab := newTable("Tmut", []object.ObjMetadata{
+			mkID("", "ConfigMap", "ns1", "a"),
+			mkID("", "ConfigMap", "ns1", "b"),
+			mkID("apps", "Deployment", "ns1", "web"),
+			mkID("", "Secret", "ns1", "s"),
+			mkID("", "ConfigMap", "ns1", "ext"), // never part of the object list
+			mkID("", "ConfigMap", "", "b"),      // never part of the object list: "b" without a namespace
+			mkID("rbac.authorization.k8s.io", "ClusterRole", "", "cr"),
+		})
+		src := func(ids ...int) []msrc {
+			l := make([]msrc, len(ids))
+			for i, id := range ids {
+				l[i] = msrc{id: id}
+			}
+			return l
+		}
+		rev := func(l []ospec) []ospec {
+			o := make([]ospec, len(l))
+			for i := range l {
+				o[len(l)-1-i] = l[i]
+			}
+			return o
+		}
+		plain := func(id int) ospec { return ospec{id: id} }
+		corpus := []struct {
+			label string
+			objs  []ospec
+		}{
+			// (a) the depends-on pass fails on one object, the mutation pass on
+			// another: both are reported and the mutation edges 2->1, 3->1 exist
+			{"corpus-mut-two-failing-passes", []ospec{
+				{id: 0, annot: annDeps, deps: []int{4}}, plain(1),
+				{id: 2, mut: mutSrcs, srcs: src(1, 4)}, {id: 3, mut: mutSrcs, srcs: src(1)}}},
+			{"corpus-mut-two-failing-passes", []ospec{
+				{id: 0, annot: annBad, bad: "not-a-reference"}, plain(1),
+				{id: 2, mut: mutBad, mbad: "{{ not yaml"}, {id: 3, annot: annDeps, deps: []int{1}, mut: mutSrcs, srcs: src(0)}}},
+			// (b) a repeated source is not an error (also once by group and once by apiVersion)
+			{"corpus-mut-duplicate-source", []ospec{
+				{id: 0, mut: mutSrcs, srcs: src(1, 1)}, plain(1),
+				{id: 2, mut: mutSrcs, srcs: []msrc{{id: 1, viaAPI: true}, {id: 1}, {id: 3}, {id: 3, viaAPI: true}}}, plain(3)}},
+			// (c) one dependency through both annotations
+			{"corpus-mut-same-edge-twice", []ospec{
+				{id: 0, annot: annDeps, deps: []int{1}, mut: mutSrcs, srcs: src(1)}, plain(1),
+				{id: 2, annot: annDeps, deps: []int{0}, mut: mutSrcs, srcs: src(0, 1)}}},
+			// a sourceRef without namespace on a namespaced object names the
+			// cluster-scoped id (5), not ns1/b (1): reported as external
+			{"corpus-mut-namespace-omitted", []ospec{
+				{id: 0, mut: mutSrcs, srcs: src(5)}, plain(1), {id: 2, mut: mutSrcs, srcs: src(6)}, plain(6)}},
+			// a cycle closed by a mutation source; a self source
+			{"corpus-mut-cycle", []ospec{
+				{id: 0, annot: annDeps, deps: []int{1}}, {id: 1, mut: mutSrcs, srcs: src(0)},
+				{id: 2, mut: mutSrcs, srcs: src(2)}, plain(3)}},
+			// rejected by both passes: named twice; an empty substitution list
+			{"corpus-mut-both-annotations-bad", []ospec{
+				{id: 0, annot: annDeps, deps: []int{4}, mut: mutSrcs, srcs: src(4)},
+				{id: 1, annot: annBad, bad: "a/b", mut: mutBad, mbad: "- sourceRef: 7"},
+				{id: 2, mut: mutSrcs}, plain(3)}},
+		}
+		for _, c := range corpus {
+			if err := h.emitObjCase(exh, tab, c.label, c.label+": ", "", [][]ospec{c.objs, rev(c.objs)}); err != nil {
+				return err
+			}
+		}
+	}
+
 	// ---- 1. exhaustive on T3 (no Namespace object: no implicit edges)
 	for n := 0; n <= 3; n++ {
 		ps := perms(n)
@@ -646,6 +1067,41 @@ func (h *harness) objCases(r *rand.Rand, mult int) error {
 			if err := h.emitObjCase(exh, h.t3, fmt.Sprintf("exhaustive-n%d", n), "", "", ins); err != nil {
 				return err
 			}
+			// the same digraph with its edges written as mutation sources,
+			// depends-on references or both: every assignment for n <= 2, one
+			// random assignment for n = 3
+			es := maskEdges(n, mask)
+			if len(es) == 0 {
+				continue
+			}
+			var vias [][]int
+			if n <= 2 {
+				total := 1
+				for range es {
+					total *= 3
+				}
+				for code := 1; code < total; code++ { // code 0 = all depends-on = the case above
+					v := make([]int, len(es))
+					for k, c := 0, code; k < len(es); k, c = k+1, c/3 {
+						v[k] = c % 3
+					}
+					vias = append(vias, v)
+				}
+			} else {
+				v := randVia(r, len(es))
+				v[r.Intn(len(v))] = viaMut + r.Intn(2)
+				vias = append(vias, v)
+			}
+			for _, v := range vias {
+				mobjs := edgesToObjsVia(r, n, es, v)
+				var mins [][]ospec
+				for _, p := range ps {
+					mins = append(mins, present(r, mobjs, p))
+				}
+				if err := h.emitObjCase(exh, h.t3, fmt.Sprintf("exhaustive-via-n%d", n), "", "", mins); err != nil {
+					return err
+				}
+			}
 		}
 	}
 	if err := exh.flush(); err != nil {
@@ -658,12 +1114,18 @@ func (h *harness) objCases(r *rand.Rand, mult int) error {
 		tab      *table
 	}{{4, 300 * mult, h.t4}, {5, 200 * mult, h.t5}} {
 		for i := 0; i < cfg.count; i++ {
-			objs := edgesToObjs(cfg.n, randMaskEdges(r, cfg.n))
+			es := randMaskEdges(r, cfg.n)
+			objs := edgesToObjs(cfg.n, es)
+			lab := "sample"
+			if i%2 == 1 {
+				objs = edgesToObjsVia(r, cfg.n, es, randVia(r, len(es)))
+				lab = "sample-via"
+			}
 			var ins [][]ospec
 			for k := 0; k < 3; k++ {
 				ins = append(ins, present(r, objs, r.Perm(cfg.n)))
 			}
-			if err := h.emitObjCase(smp, cfg.tab, fmt.Sprintf("sample-n%d", cfg.n), "", "", ins); err != nil {
+			if err := h.emitObjCase(smp, cfg.tab, fmt.Sprintf("%s-n%d", lab, cfg.n), "", "", ins); err != nil {
 				return err
 			}
 		}
